@@ -136,16 +136,15 @@ def run(case):
             res.fail('c.best_path[full]:' + exc2, 'best_path on the C matrix raised')
         else:
             paths_seen.append(_check_path(res, 'c.best_path[full]', case, path, None, refd))
-    skw = {k: (0 if v is None else v) for k, v in kw.items() if k != 'inner_dist'}
-    if nd == 1 and inner == 'squared euclidean':
-        got, exc = libcall(dtw.warping_path_fast, a1, a2, include_distance=True,
-                           **{k: v for k, v in kw.items() if k != 'inner_dist'})
+    skw = {k: (0 if v is None else v) for k, v in kw.items()}
+    if nd == 1:
+        got, exc = libcall(dtw.warping_path_fast, a1, a2, include_distance=True, **kw)
         if exc:
             res.fail('c.warping_path_fast:' + exc, 'warping_path_fast raised')
         else:
             path, d = got
             paths_seen.append(_check_path(res, 'c.warping_path_fast', case, path, float(d), refd))
-    if nd > 1 and inner == 'squared euclidean':
+    if nd > 1:
         got, exc = libcall(dtw_cc.warping_path_ndim, a1, a2, nd, True, **skw)
         if exc:
             res.fail('c.warping_path_ndim:' + exc, 'dtw_cc.warping_path_ndim raised')
@@ -158,7 +157,7 @@ def run(case):
     if exc is None:
         d, W = got
         W = np.ascontiguousarray(W, dtype=np.double)
-        path, exc2 = libcall(dtw_cc.best_path_compact, W, l1, l2, inner_dist=inner, **skw)
+        path, exc2 = libcall(dtw_cc.best_path_compact, W, l1, l2, **skw)
         if exc2:
             res.fail('c.best_path_compact:' + exc2, 'best_path_compact raised')
         else:
